@@ -138,7 +138,7 @@ WrathReadHeader(h, script) ==
           ELSE LET a == Attempt(half[h].st, half[h].stash, rd.bytes)
                IN IF ~a.need5
                   THEN /\ half' = [half EXCEPT ![h].st = a.rc4, ![h].stash = a.stash]
-                       /\ hout' = [kind |-> "ok", header |-> a.header]
+                       /\ hout' = [kind |-> "ok", header |-> a.header, used |-> 4]
                   ELSE LET rd2 == ReadExact(rd.rest, 1, <<>>)
                        IN IF ~rd2.ok
                           THEN \* failed at the fifth byte: exactly as after the 4-byte attempt
@@ -146,7 +146,7 @@ WrathReadHeader(h, script) ==
                                /\ hout' = [kind |-> "err", io |-> rd2.kind, pending |-> TRUE]
                           ELSE LET c == Complete(a.rc4, a.stash, rd2.bytes[1])
                                IN /\ half' = [half EXCEPT ![h].st = c.rc4, ![h].stash = a.stash]
-                                  /\ hout' = [kind |-> "ok", header |-> c.header]
+                                  /\ hout' = [kind |-> "ok", header |-> c.header, used |-> 5]
 
 (* A writer script: [t |-> "accept", n |-> k] (takes up to k bytes; k = 0   *)
 (* is a zero-length write = WriteZero error) | [t |-> "intr"] |             *)
